@@ -441,13 +441,229 @@ def _edit(self, op, toks):
 BtRun.edit = _edit
 
 
+# ---------------------------------------------------------------------------------------------
+# reflection: a real tree -> spec (ids in pre-order), used for trees the library builds itself (idioms)
+# ---------------------------------------------------------------------------------------------
+
+import operator as _op
+
+OPNAME = {_op.eq: "eq", _op.ne: "ne", _op.lt: "lt", _op.le: "le", _op.gt: "gt", _op.ge: "ge"}
+LOGICNAME = {_op.and_: "and", _op.or_: "or", _op.xor: "xor"}
+
+
+def abs_key(name, ns="/"):
+    key = name.split(".")[0]
+    return Blackboard.absolute_name(ns, key)
+
+
+def key_path(variable_name, client=None):
+    parts = variable_name.split(".")
+    ns = object.__getattribute__(client, "namespace") if client is not None else "/"
+    return Blackboard.absolute_name(ns, parts[0]), (".".join(parts[1:]) or "-")
+
+
+def reflect_leaf(b):
+    B = py_trees.behaviours
+    if isinstance(b, Probe):
+        return ["probe"]
+    name = type(b).__name__
+    if name in ("Success", "Failure", "Running", "Dummy"):
+        return ["const", {"Success": "S", "Failure": "F", "Running": "R", "Dummy": "R"}[name]]
+    if isinstance(b, B.TickCounter):
+        return ["tc", b.duration, ST[b.completion_status]]
+    if isinstance(b, B.StatusQueue):
+        return ["sq", "".join(ST[x] for x in b.queue) or "-", ST[b.eventually] if b.eventually else "-"]
+    if isinstance(b, B.SuccessEveryN):
+        return ["sen", b.every_n]
+    if isinstance(b, py_trees.timers.Timer):
+        return ["timer", int(b.duration)]
+    if isinstance(b, B.WaitForBlackboardVariable):
+        return ["wf"] + list(key_path(b.variable_name, b.blackboard))
+    if isinstance(b, B.CheckBlackboardVariableExists):
+        return ["cex"] + list(key_path(b.variable_name, b.blackboard))
+    if isinstance(b, B.CheckBlackboardVariableValue):
+        k, p = key_path(b.check.variable, b.blackboard)
+        tag = "wv" if isinstance(b, B.WaitForBlackboardVariableValue) else "cv"
+        return [tag, k, p, OPNAME[b.check.operator], val_str(b.check.value)]
+    if isinstance(b, B.CheckBlackboardVariableValues):
+        out = ["cvs", len(b.checks)]
+        for c in b.checks:
+            k, p = key_path(c.variable, b.blackboard)
+            out += [k, p, OPNAME[c.operator], val_str(c.value)]
+        out.append(LOGICNAME[b.operator])
+        if b.blackboard_results is not None:
+            ns = object.__getattribute__(b.blackboard_results, "namespace")
+            out += [Blackboard.absolute_name(ns, str(i + 1)) for i in range(len(b.checks))]
+        return out
+    if isinstance(b, B.SetBlackboardVariable):
+        k, p = key_path(b.variable_name, b.blackboard)
+        return ["set", k, p, val_str(b.variable_value_generator()), "1" if b.overwrite else "0"]
+    if isinstance(b, B.UnsetBlackboardVariable):
+        return ["unset", Blackboard.absolute_name(object.__getattribute__(b.blackboard, "namespace"), b.key)]
+    if isinstance(b, B.BlackboardToStatus):
+        return ["b2s"] + list(key_path(b.variable_name, b.blackboard))
+    raise ValueError("cannot reflect leaf %r" % b)
+
+
+def reflect_dec(b, nid):
+    D = py_trees.decorators
+    simple = {D.Inverter: "inv", D.RunningIsFailure: "rif", D.RunningIsSuccess: "ris", D.FailureIsSuccess: "fis",
+              D.FailureIsRunning: "fir", D.SuccessIsFailure: "sif", D.SuccessIsRunning: "sir", D.PassThrough: "pass",
+              D.Count: "count"}
+    if type(b) in simple:
+        return simple[type(b)]
+    if isinstance(b, D.Condition):
+        return "cond:" + ST[b.succeed_status]
+    if isinstance(b, D.Retry):
+        return "retry:%d" % b.num_failures
+    if isinstance(b, D.Repeat):
+        return "repeat:%d" % b.num_success
+    if isinstance(b, D.Timeout):
+        return "timeout:%d" % int(b.duration)
+    if isinstance(b, D.EternalGuard):
+        return "guard:%d" % nid
+    if isinstance(b, D.OneShot):
+        return "oneshot:" + ("1" if b.policy == py_trees.common.OneShotPolicy.ON_COMPLETION else "0")
+    if isinstance(b, D.StatusToBlackboard):
+        k, p = key_path(b.variable_name, b.blackboard)
+        return "s2b:%s:%s" % (k, p)
+    raise ValueError("cannot reflect decorator %r" % b)
+
+
+def reflect(root, ctx):
+    """number the real tree in pre-order, register every node in ctx (tick / callback wrappers) and return its spec"""
+    counter = [0]
+    ids = {}
+
+    def number(b):
+        counter[0] += 1
+        ids[b.id] = counter[0]
+        for c in b.children:
+            number(c)
+    number(root)
+
+    def go(b):
+        nid = ids[b.id]
+        C = py_trees.composites
+        if isinstance(b, C.Sequence):
+            spec = ("Q", nid, b.memory, [go(c) for c in b.children])
+        elif isinstance(b, C.Selector):
+            spec = ("S", nid, b.memory, [go(c) for c in b.children])
+        elif isinstance(b, C.Parallel):
+            PP = py_trees.common.ParallelPolicy
+            if type(b.policy) is PP.SuccessOnAll:
+                pol = "all:%d" % b.policy.synchronise
+            elif type(b.policy) is PP.SuccessOnOne:
+                pol = "one"
+            else:
+                pol = "sel:%d:%s" % (b.policy.synchronise, ",".join(str(ids.get(c.id, 9999)) for c in b.policy.children))
+            spec = ("P", nid, pol, [go(c) for c in b.children])
+        elif isinstance(b, py_trees.decorators.Decorator):
+            spec = ("D", nid, reflect_dec(b, nid), go(b.decorated))
+            if isinstance(b, py_trees.decorators.EternalGuard) and not getattr(b, "_verif_guard", False):
+                pass
+        else:
+            spec = ("L", nid, reflect_leaf(b))
+            if isinstance(b, Probe):
+                b._nid = nid
+            elif not getattr(b, "_verif_wrapped", False):
+                wrap_leaf_callbacks(b, nid, ctx)
+                b._verif_wrapped = True
+        ctx.by_id[nid] = b
+        ctx.nid[b.id] = nid
+        if not getattr(b, "_verif_tick", False):
+            wrap_tick(b, nid, ctx)
+            b._verif_tick = True
+        return spec
+    return go(root)
+
+
+def decode_name(t):
+    return t.replace("~", " ").replace("^", "\n").replace("!", "\t")
+
+
+def build_idiom(toks, ctx):
+    """`idiom pickup name (tree) name (tree) …` | `idiom oneshot key path both (tree)` |
+    `idiom eitheror ns n checks… (tree)…` built by the library itself; returns the real root"""
+    kind = toks[1]
+    rest = toks[2:]
+    inner = Ctx()     # the wrapped subtrees are built un-instrumented, reflect() instruments the whole idiom
+
+    def plain(spec, name=None):
+        b = build_plain(spec, ctx)
+        if name is not None:
+            b.name = name
+        return b
+    if kind == "pickup":
+        tasks = []
+        while rest:
+            nm = decode_name(rest[0])
+            spec, rest = parse_spec(rest[1:])
+            tasks.append(plain(spec, nm))
+        return py_trees.idioms.pick_up_where_you_left_off(name="pickup", tasks=tasks)
+    if kind == "oneshot":
+        key, path, both = rest[0], rest[1], rest[2]
+        spec, _ = parse_spec(rest[3:])
+        pol = py_trees.common.OneShotPolicy.ON_COMPLETION if both == "1" \
+            else py_trees.common.OneShotPolicy.ON_SUCCESSFUL_COMPLETION
+        return py_trees.idioms.oneshot(behaviour=plain(spec), name="oneshot", variable_name=varname(key, path),
+                                       policy=pol)
+    if kind == "eitheror":
+        ns, n = rest[0], int(rest[1])
+        rest = rest[2:]
+        conds = []
+        for _ in range(n):
+            key, path, op, v = rest[:4]
+            rest = rest[4:]
+            conds.append(py_trees.common.ComparisonExpression(variable=varname(key, path), value=val_parse(v),
+                                                              operator=OPS[op]))
+        subs = []
+        while rest:
+            spec, rest = parse_spec(rest)
+            subs.append(plain(spec))
+        return py_trees.idioms.either_or(conditions=conds, subtrees=subs, name="either_or", namespace=ns)
+    raise ValueError(toks)
+
+
+def build_plain(spec, ctx):
+    """like build() but without registering ids / wrappers (reflect() does that for the finished idiom)"""
+    scratch = Ctx()
+    scratch.outcomes, scratch.guards = ctx.outcomes, ctx.guards
+    b = build(spec, scratch)
+
+    def unwrap(x):
+        for attr in ("tick", "initialise", "update", "terminate"):
+            if attr in x.__dict__:
+                del x.__dict__[attr]
+        if isinstance(x, Probe):
+            x._ctx = ctx
+        for c in x.children:
+            unwrap(c)
+    unwrap(b)
+    return b
+
+
 def run_bt(scn):
     """[observation lines] in the same framing as the driver"""
-    spec, rest = parse_spec(scn.header[0].split()[1:])
-    assert rest == []
-    run = BtRun(spec, scn.meta.get("names"))
-    out = []
+    toks = scn.header[0].split()
+    if toks[0] == "idiom":
+        run = BtRun.__new__(BtRun)
+        Blackboard.clear()
+        install_clock()
+        CLOCK.now = 0
+        run.ctx = Ctx()
+        run.root = build_idiom(toks, run.ctx)
+        spec = reflect(run.root, run.ctx)
+        run.tree = py_trees.trees.BehaviourTree(run.root)
+        run.names = None
+        run.dead = False
+    else:
+        spec, rest = parse_spec(toks[1:])
+        assert rest == []
+        run = BtRun(spec, scn.meta.get("names"))
+    out = ["SPEC " + spec_str(spec)]
+    enc = lambda l: l.replace("\n", "^").replace("\t", "!")  # noqa: E731  (keys derived from multi-line names)
     for op in scn.ops:
         out.append("> " + op)
         out += run.step(op)
-    return out
+    return [enc(l) for l in out]
